@@ -192,6 +192,9 @@ type zone struct {
 	// whose length is str, i.e. −1, or base+off+i is a position inside s. Part of
 	// the abstract state: dropped when i or base is written, intersected at joins.
 	rel map[int]relFact
+	// relS[l] = {base, off, str}: the string whose length is variable l is the
+	// suffix s[base+off:] of the string whose length is str
+	relS map[int]relFact
 }
 
 type relFact struct {
@@ -206,6 +209,30 @@ func (z *zone) dropRel(x int) {
 			delete(z.rel, k)
 		}
 	}
+	for k, f := range z.relS {
+		if k == x || f.base == x || f.strLen.v == x {
+			delete(z.relS, k)
+		}
+	}
+}
+
+func meetRelMap(a, b map[int]relFact, aBot, bBot bool) map[int]relFact {
+	switch {
+	case aBot:
+		return cloneRel(b)
+	case bBot:
+		return cloneRel(a)
+	}
+	var out map[int]relFact
+	for k, f := range a {
+		if g, ok := b[k]; ok && g == f {
+			if out == nil {
+				out = map[int]relFact{}
+			}
+			out[k] = f
+		}
+	}
+	return out
 }
 
 func meetRel(a, b *zone) map[int]relFact {
@@ -259,7 +286,7 @@ func bottomZone(n, pv int) *zone {
 func (z *zone) isBot() bool { return z.main.bot && (z.alt == nil || z.alt.bot) }
 
 func (z *zone) clone() *zone {
-	c := &zone{main: z.main.clone(), pv: z.pv, rel: cloneRel(z.rel)}
+	c := &zone{main: z.main.clone(), pv: z.pv, rel: cloneRel(z.rel), relS: cloneRel(z.relS)}
 	if z.alt != nil {
 		c.alt = z.alt.clone()
 	}
@@ -321,7 +348,7 @@ func (z *zone) entails(i, j int, c int64) bool {
 }
 
 func zjoin(a, b *zone) *zone {
-	out := &zone{main: czjoin(a.main, b.main), pv: a.pv, rel: meetRel(a, b)}
+	out := &zone{main: czjoin(a.main, b.main), pv: a.pv, rel: meetRel(a, b), relS: meetRelMap(a.relS, b.relS, a.isBot(), b.isBot())}
 	if a.alt != nil && b.alt != nil {
 		out.alt = czjoin(a.alt, b.alt)
 	}
@@ -329,7 +356,7 @@ func zjoin(a, b *zone) *zone {
 }
 
 func zwiden(a, b *zone) *zone {
-	out := &zone{main: czwiden(a.main, b.main), pv: a.pv, rel: meetRel(a, b)}
+	out := &zone{main: czwiden(a.main, b.main), pv: a.pv, rel: meetRel(a, b), relS: meetRelMap(a.relS, b.relS, a.isBot(), b.isBot())}
 	if a.alt != nil && b.alt != nil {
 		out.alt = czwiden(a.alt, b.alt)
 	}
@@ -343,6 +370,11 @@ func zleq(a, b *zone) bool {
 	if !a.isBot() {
 		for k, f := range b.rel {
 			if g, ok := a.rel[k]; !ok || g != f {
+				return false
+			}
+		}
+		for k, f := range b.relS {
+			if g, ok := a.relS[k]; !ok || g != f {
 				return false
 			}
 		}
@@ -391,6 +423,115 @@ type boundsFn struct {
 	floorAfter token.Pos
 	floorSites int
 	floorBad   string
+	// call-site preconditions: what this function's callers guarantee about its
+	// integer and string parameters (differences between them and constants), and
+	// what it guarantees at its own calls of package functions
+	pre   [][]int64                   // over slots 0 (zero), 1..n (parameters), zinf = unknown
+	calls map[*ast.FuncDecl][][]int64 // callee -> join of the states at the calls seen
+}
+
+// paramSlots: the zone variables of fd's integer and string(-slice) parameters, in
+// order, 0 for a parameter the analysis does not track.
+func (b *boundsFn) paramSlots(fd *ast.FuncDecl) []int {
+	var out []int
+	for _, po := range paramObjs(b.p.Info, fd) {
+		switch {
+		case po == nil:
+			out = append(out, 0)
+		case b.intVar[po] != 0:
+			out = append(out, b.intVar[po])
+		case b.lenVar[po] != 0:
+			out = append(out, b.lenVar[po])
+		default:
+			out = append(out, 0)
+		}
+	}
+	return out
+}
+
+// recordCall notes what holds between the arguments of a call of a package
+// function (as integers, or lengths for strings) in state z.
+func (b *boundsFn) recordCall(z *zone, call *ast.CallExpr) {
+	if !b.record || z.isBot() {
+		return
+	}
+	fn := calleeOf(b.p.Info, call)
+	if fn == nil || fn.Pkg() != b.p.P.Types {
+		return
+	}
+	g := b.p.FuncObj[fn]
+	if g == nil || g.Recv != nil || g == b.fd {
+		return
+	}
+	params := paramObjs(b.p.Info, g)
+	if len(params) != len(call.Args) || len(params) == 0 {
+		return
+	}
+	n := len(params) + 1
+	lins := make([]lin, n)
+	known := make([]bool, n)
+	lins[0], known[0] = lin{0, 0}, true
+	for i, po := range params {
+		if po == nil {
+			continue
+		}
+		switch {
+		case isIntT(po.Type()):
+			lins[i+1], known[i+1] = b.linear(call.Args[i])
+		case isStringT(po.Type()) || isStringSlice(po.Type()):
+			lins[i+1], known[i+1] = b.lenOf(call.Args[i])
+		}
+	}
+	m := make([][]int64, n)
+	for i := range m {
+		m[i] = make([]int64, n)
+		for j := range m[i] {
+			m[i][j] = zinf
+			if i == j {
+				m[i][j] = 0
+				continue
+			}
+			if !known[i] || !known[j] {
+				continue
+			}
+			// tightest c with a_i − a_j ≤ c in every partition
+			best := int64(-zinf)
+			okAll := true
+			for _, cz := range []*czone{z.main, z.alt} {
+				if cz == nil || cz.bot {
+					continue
+				}
+				d := cz.m[lins[i].v*cz.n+lins[j].v]
+				if lins[i].v == lins[j].v {
+					d = 0
+				}
+				if d >= zinf {
+					okAll = false
+					break
+				}
+				if c := d + lins[i].c - lins[j].c; c > best {
+					best = c
+				}
+			}
+			if okAll && best > -zinf {
+				m[i][j] = best
+			}
+		}
+	}
+	if b.calls == nil {
+		b.calls = map[*ast.FuncDecl][][]int64{}
+	}
+	if old := b.calls[g]; old != nil {
+		for i := range old {
+			for j := range old[i] {
+				if m[i][j] > old[i][j] {
+					old[i][j] = m[i][j]
+				}
+			}
+		}
+	} else {
+		b.calls[g] = m
+	}
 }
 
 func (b *boundsFn) checkFloor(z *zone, x ast.Expr, base ast.Expr, lo lin) {
@@ -557,6 +698,160 @@ func (b *boundsFn) entailsLE(z *zone, a, c lin, k int64) bool {
 	return z.entails(a.v, c.v, c.c+k-a.c)
 }
 
+// sumOf flattens e into at most two variables plus a constant.
+func (b *boundsFn) sumOf(e ast.Expr) (vars []int, c int64, ok bool) {
+	e = ast.Unparen(e)
+	if l, okL := b.linear(e); okL {
+		if l.v != 0 {
+			vars = append(vars, l.v)
+		}
+		return vars, l.c, true
+	}
+	be, isB := e.(*ast.BinaryExpr)
+	if !isB || (be.Op != token.ADD && be.Op != token.SUB) {
+		return nil, 0, false
+	}
+	v1, c1, ok1 := b.sumOf(be.X)
+	v2, c2, ok2 := b.sumOf(be.Y)
+	if !ok1 || !ok2 {
+		return nil, 0, false
+	}
+	if be.Op == token.SUB {
+		if len(v2) != 0 {
+			return nil, 0, false
+		}
+		return v1, c1 - c2, true
+	}
+	vars = append(append(vars, v1...), v2...)
+	if len(vars) > 2 {
+		return nil, 0, false
+	}
+	return vars, c1 + c2, true
+}
+
+// assignSum handles x := a + b + c for two integer variables a, b (x may be a):
+// the constant bounds of one summand give difference bounds between x and the
+// other; and when b is the result of IndexByte on the suffix of a string that
+// starts at a (+off), a + off + b is a position inside that string.
+func (b *boundsFn) assignSum(z *zone, x int, rhs ast.Expr) bool {
+	vars, c, ok := b.sumOf(rhs)
+	if !ok || len(vars) != 2 || vars[0] == vars[1] {
+		return false
+	}
+	bounds := func(v int) (lo, hi int64, hasLo, hasHi bool) {
+		hasLo, hasHi = true, true
+		first := true
+		for _, cz := range []*czone{z.main, z.alt} {
+			if cz == nil || cz.bot {
+				continue
+			}
+			n := cz.n
+			l, h := cz.m[0*n+v], cz.m[v*n+0]
+			if l >= zinf {
+				hasLo = false
+			}
+			if h >= zinf {
+				hasHi = false
+			}
+			if first {
+				lo, hi, first = -l, h, false
+			} else {
+				if -l < lo {
+					lo = -l
+				}
+				if h > hi {
+					hi = h
+				}
+			}
+		}
+		if first {
+			return 0, 0, false, false
+		}
+		return
+	}
+	// position facts, read before anything is forgotten
+	type posFact struct {
+		f  relFact
+		ok bool // the index is known to be ≥ 0
+	}
+	var facts []posFact
+	for _, pr := range [][2]int{{vars[0], vars[1]}, {vars[1], vars[0]}} {
+		if f, has := z.rel[pr[1]]; has && f.base == pr[0] && f.strLen.v != x {
+			lo, _, hasLo, _ := bounds(pr[1])
+			facts = append(facts, posFact{f, hasLo && lo >= 0})
+		}
+	}
+	a, other := vars[0], vars[1]
+	if x == other {
+		a, other = other, a
+	}
+	if x == a {
+		// x := x + other + c: every difference with x shifts by the range of other + c
+		lo, hi, hasLo, hasHi := bounds(other)
+		rel := cloneRel(z.rel)
+		relS := cloneRel(z.relS)
+		for _, cz := range []*czone{z.main, z.alt} {
+			if cz == nil || cz.bot {
+				continue
+			}
+			n := cz.n
+			for y := 0; y < n; y++ {
+				if y == x {
+					continue
+				}
+				if hasHi && cz.m[x*n+y] < zinf {
+					cz.m[x*n+y] += hi + c
+				} else {
+					cz.m[x*n+y] = zinf
+				}
+				if hasLo && cz.m[y*n+x] < zinf {
+					cz.m[y*n+x] -= lo + c
+				} else {
+					cz.m[y*n+x] = zinf
+				}
+			}
+		}
+		_ = rel
+		_ = relS
+		z.dropRel(x)
+		if x == z.pv {
+			z.repartition()
+		}
+		for _, pf := range facts {
+			if pf.ok {
+				// x_new = position + (c − off) ≤ len(s) − 1 + (c − off)
+				b.addLE(z, lin{x, 0}, pf.f.strLen, -1+c-pf.f.off)
+			}
+		}
+		return true
+	}
+	type bnd struct {
+		other        int
+		lo, hi       int64
+		hasLo, hasHi bool
+	}
+	var bs []bnd
+	for _, pr := range [][2]int{{vars[0], vars[1]}, {vars[1], vars[0]}} {
+		lo, hi, hasLo, hasHi := bounds(pr[1])
+		bs = append(bs, bnd{pr[0], lo, hi, hasLo, hasHi})
+	}
+	z.forget(x)
+	for _, bd := range bs {
+		if bd.hasHi {
+			z.add(x, bd.other, bd.hi+c)
+		}
+		if bd.hasLo {
+			z.add(bd.other, x, -(bd.lo + c))
+		}
+	}
+	for _, pf := range facts {
+		if pf.ok {
+			b.addLE(z, lin{x, 0}, pf.f.strLen, -1+c-pf.f.off)
+		}
+	}
+	return true
+}
+
 // refine z by cond being `truth`; index expressions inside cond are checked on the way
 func (b *boundsFn) refine(z *zone, cond ast.Expr, truth bool) *zone {
 	if z.isBot() {
@@ -705,6 +1000,7 @@ func (b *boundsFn) checkExpr(z *zone, e ast.Expr) {
 		if se, ok := x.Fun.(*ast.SelectorExpr); ok {
 			b.checkExpr(z, se.X)
 		}
+		b.recordCall(z, x)
 	case *ast.SelectorExpr:
 		b.checkExpr(z, x.X)
 	case *ast.StarExpr:
@@ -817,6 +1113,19 @@ func (b *boundsFn) assignTo(z *zone, lhs ast.Expr, rhs ast.Expr, multi int) {
 						if okLs {
 							b.addLE(z, lin{v, 0}, ls, -1+shift)
 						}
+						// … or in a string remembered as the suffix s[base+off:]
+						if id, isId := ast.Unparen(call.Args[0]).(*ast.Ident); isId && shift == 0 {
+							if o := identObj(info, id); o != nil {
+								if lv, ok := b.lenVar[o]; ok {
+									if f, ok := z.relS[lv]; ok && f.base != v && f.strLen.v != v {
+										if z.rel == nil {
+											z.rel = map[int]relFact{}
+										}
+										z.rel[v] = f
+									}
+								}
+							}
+						}
 						// the search starts at an offset held in a variable: s[base+off:]
 						if se, isSl := ast.Unparen(call.Args[0]).(*ast.SliceExpr); isSl && shift == 0 && se.Low != nil && se.High == nil && !se.Slice3 {
 							if lo, okLo := b.linear(se.Low); okLo && lo.v != 0 && lo.v != v {
@@ -833,82 +1142,9 @@ func (b *boundsFn) assignTo(z *zone, lhs ast.Expr, rhs ast.Expr, multi int) {
 				}
 				_ = call
 			}
-			// x := a + b (two variables): constant bounds of either give a difference
-			// bound on the other; and base + IndexByte(s[base:], …) is a position of s
-			if be, ok := ast.Unparen(rhs).(*ast.BinaryExpr); ok && be.Op == token.ADD {
-				l1, ok1 := b.linear(be.X)
-				l2, ok2 := b.linear(be.Y)
-				if ok1 && ok2 && l1.v != 0 && l2.v != 0 && l1.v != v && l2.v != v && l1.v != l2.v {
-					c := l1.c + l2.c
-					type bnd struct {
-						other        int
-						lo, hi       int64
-						hasLo, hasHi bool
-					}
-					var bs []bnd
-					// bounds must hold in both partitions: take the weaker
-					get := func(varIdx int) (lo, hi int64, hasLo, hasHi bool) {
-						hasLo, hasHi = true, true
-						first := true
-						for _, cz := range []*czone{z.main, z.alt} {
-							if cz == nil || cz.bot {
-								continue
-							}
-							n := cz.n
-							l, h := cz.m[0*n+varIdx], cz.m[varIdx*n+0] // 0 − x ≤ l ; x − 0 ≤ h
-							if l >= zinf {
-								hasLo = false
-							}
-							if h >= zinf {
-								hasHi = false
-							}
-							if first {
-								lo, hi = -l, h
-								first = false
-							} else {
-								if -l < lo {
-									lo = -l
-								}
-								if h > hi {
-									hi = h
-								}
-							}
-						}
-						if first {
-							hasLo, hasHi = false, false
-						}
-						return
-					}
-					for _, pr := range [][2]int{{l1.v, l2.v}, {l2.v, l1.v}} {
-						lo, hi, hasLo, hasHi := get(pr[1])
-						bs = append(bs, bnd{other: pr[0], lo: lo, hi: hi, hasLo: hasLo, hasHi: hasHi})
-					}
-					var facts []relFact
-					var factOK []bool
-					for _, pr := range [][2]int{{l1.v, l2.v}, {l2.v, l1.v}} {
-						if f, ok := z.rel[pr[1]]; ok && f.base == pr[0] && f.off == c && f.strLen.v != v {
-							_, _, hasLo, _ := get(pr[1])
-							lo, _, _, _ := get(pr[1])
-							facts = append(facts, f)
-							factOK = append(factOK, hasLo && lo >= 0)
-						}
-					}
-					z.forget(v)
-					for _, bd := range bs {
-						if bd.hasHi {
-							z.add(v, bd.other, bd.hi+c) // x − a ≤ hi(b) + c
-						}
-						if bd.hasLo {
-							z.add(bd.other, v, -(bd.lo + c)) // a − x ≤ −(lo(b) + c)
-						}
-					}
-					for i, f := range facts {
-						if factOK[i] {
-							b.addLE(z, lin{v, 0}, f.strLen, -1) // a found position: x ≤ len(s) − 1
-						}
-					}
-					return
-				}
+			// x := a + b [+ c] (two variables, possibly x itself): see assignSum
+			if b.assignSum(z, v, rhs) {
+				return
 			}
 			if call, ok := rhs0.(*ast.CallExpr); ok {
 				if id, ok := call.Fun.(*ast.Ident); ok && shift == 0 && rhs0 == rhs && (id.Name == "min" || id.Name == "max") {
@@ -954,6 +1190,17 @@ func (b *boundsFn) assignTo(z *zone, lhs ast.Expr, rhs ast.Expr, multi int) {
 				z.assign(v, 0, l.c)
 			}
 		case *ast.SliceExpr:
+			// r := s[base+off:] — remembered as a suffix of s
+			if r.High == nil && r.Low != nil && !r.Slice3 {
+				if lo, okLo := b.linear(r.Low); okLo && lo.v != 0 && lo.v != v {
+					if sl, okSl := b.lenOf(r.X); okSl && sl.v != v && sl.v != 0 {
+						if z.relS == nil {
+							z.relS = map[int]relFact{}
+						}
+						z.relS[v] = relFact{base: lo.v, off: lo.c, strLen: sl}
+					}
+				}
+			}
 			// len = high − low: expressible when one of them is a constant offset of the other side
 			src, okS := b.lenOf(r.X)
 			lo, hi := lin{0, 0}, src
@@ -1057,9 +1304,12 @@ func (b *boundsFn) exec(z *zone, s ast.Stmt) flowOut {
 						assigned[identObj(info, l)] = true
 					}
 					clash := false
-					for _, r := range st.Rhs {
+					for k, r := range st.Rhs {
+						own := identObj(info, st.Lhs[k])
 						ast.Inspect(r, func(n ast.Node) bool {
-							if id, ok := n.(*ast.Ident); ok && assigned[info.Uses[id]] {
+							// a right side may read the variable it is itself assigned to
+							// (x, y = x+1, f(z)): the others still hold their old values
+							if id, ok := n.(*ast.Ident); ok && assigned[info.Uses[id]] && info.Uses[id] != own {
 								clash = true
 							}
 							return true
@@ -1111,6 +1361,8 @@ func (b *boundsFn) exec(z *zone, s ast.Stmt) flowOut {
 								c = -c
 							}
 							nz.assign(v, v, c)
+						} else if st.Tok == token.ADD_ASSIGN && b.assignSum(nz, v, &ast.BinaryExpr{X: st.Lhs[0], Op: token.ADD, Y: st.Rhs[0]}) {
+							// x += b + c
 						} else {
 							nz.forget(v)
 						}
@@ -1357,12 +1609,16 @@ func (b *boundsFn) execList(z *zone, list []ast.Stmt) flowOut {
 // analyseBounds runs the analysis on one function. inputParams: the string
 // parameters that carry input text.
 func (p *Pkg) analyseBounds(fd *ast.FuncDecl) (*boundsFn, error) {
-	return p.analyseBoundsFloor(fd, nil, 0, token.NoPos)
+	return p.analyseBoundsPre(fd, nil, 0, token.NoPos, nil)
+}
+
+func (p *Pkg) analyseBoundsFloor(fd *ast.FuncDecl, obj types.Object, floor int64, after token.Pos) (*boundsFn, error) {
+	return p.analyseBoundsPre(fd, obj, floor, after, nil)
 }
 
 // analyseBoundsFloor: as analyseBounds, additionally asking that every index or
 // slice expression on obj after position `after` starts at an offset ≥ floor.
-func (p *Pkg) analyseBoundsFloor(fd *ast.FuncDecl, obj types.Object, floor int64, after token.Pos) (*boundsFn, error) {
+func (p *Pkg) analyseBoundsPre(fd *ast.FuncDecl, obj types.Object, floor int64, after token.Pos, pre [][]int64) (*boundsFn, error) {
 	info := p.Info
 	b := &boundsFn{p: p, fd: fd, intVar: map[types.Object]int{}, lenVar: map[types.Object]int{}, sites: map[ast.Node]*boundsSite{}, input: map[types.Object]bool{}, floorObj: obj, floor: floor, floorAfter: after}
 	b.n = 1
@@ -1490,6 +1746,18 @@ func (p *Pkg) analyseBoundsFloor(fd *ast.FuncDecl, obj types.Object, floor int64
 	for _, v := range b.lenVar {
 		z.add(0, v, 0)
 	}
+	if pre != nil {
+		slots := append([]int{0}, b.paramSlots(fd)...)
+		if len(slots) == len(pre) {
+			for i := range pre {
+				for j := range pre[i] {
+					if i != j && pre[i][j] < zinf && (slots[i] != 0 || i == 0) && (slots[j] != 0 || j == 0) && slots[i] != slots[j] {
+						z.add(slots[i], slots[j], pre[i][j])
+					}
+				}
+			}
+		}
+	}
 	// first pass: invariants; second pass: verdicts
 	b.execList(z, fd.Body.List)
 	b.record = true
@@ -1533,9 +1801,93 @@ func (w *World) rulesBounds(p *Pkg, add func(ok bool, rule, inst string, n ast.N
 		work = append(work, p.calleesOf(f)...)
 	}
 	sort.Slice(fns, func(i, j int) bool { return fns[i].Pos() < fns[j].Pos() })
+	// call-site preconditions of unexported helpers: every call of the helper lies in an
+	// analysed function, and what holds between the arguments at each call (joined over
+	// the calls) is assumed at the helper's entry. Callers first, three rounds.
+	pres := map[*ast.FuncDecl][][]int64{}
+	{
+		inSet := map[*ast.FuncDecl]bool{}
+		for _, f := range fns {
+			inSet[f] = true
+		}
+		callSites := map[*ast.FuncDecl]int{} // calls of g anywhere in the package
+		seenSites := map[*ast.FuncDecl]int{} // calls of g inside analysed functions
+		for _, fd := range p.FuncObj {
+			if fd.Body == nil {
+				continue
+			}
+			ast.Inspect(fd.Body, func(n ast.Node) bool {
+				if c, ok := n.(*ast.CallExpr); ok {
+					if fn := calleeOf(p.Info, c); fn != nil && fn.Pkg() == p.P.Types {
+						if g := p.FuncObj[fn]; g != nil {
+							callSites[g]++
+							if inSet[fd] {
+								seenSites[g]++
+							}
+						}
+					}
+				}
+				return true
+			})
+		}
+		// a function used as a value may be called from anywhere
+		usedAsValue := map[*ast.FuncDecl]bool{}
+		parents := p.parentMap()
+		for id, o := range p.Info.Uses {
+			if fn, ok := o.(*types.Func); ok {
+				if g := p.FuncObj[fn.Origin()]; g != nil {
+					if c, ok := parents[id].(*ast.CallExpr); !ok || c.Fun != ast.Expr(id) {
+						if se, ok := parents[id].(*ast.SelectorExpr); ok {
+							if c2, ok := parents[se].(*ast.CallExpr); ok && c2.Fun == ast.Expr(se) {
+								continue
+							}
+						}
+						usedAsValue[g] = true
+					}
+				}
+			}
+		}
+		for round := 0; round < 3; round++ {
+			next := map[*ast.FuncDecl][][]int64{}
+			count := map[*ast.FuncDecl]int{}
+			for _, f := range fns {
+				b, err := p.analyseBoundsPre(f, nil, 0, token.NoPos, pres[f])
+				if err != nil || b == nil {
+					continue
+				}
+				for g, m := range b.calls {
+					count[g]++
+					if old := next[g]; old != nil {
+						for i := range old {
+							for j := range old[i] {
+								if m[i][j] > old[i][j] {
+									old[i][j] = m[i][j]
+								}
+							}
+						}
+					} else {
+						next[g] = m
+					}
+				}
+			}
+			changed := false
+			for g, m := range next {
+				if ast.IsExported(g.Name.Name) || usedAsValue[g] || callSites[g] != seenSites[g] || !inSet[g] {
+					continue
+				}
+				if pres[g] == nil {
+					changed = true
+				}
+				pres[g] = m
+			}
+			if !changed {
+				break
+			}
+		}
+	}
 	total, proved := 0, 0
 	for _, f := range fns {
-		b, err := p.analyseBounds(f)
+		b, err := p.analyseBoundsPre(f, nil, 0, token.NoPos, pres[f])
 		if err != nil {
 			if b != nil && len(b.sites) == 0 {
 				continue // nothing to prove in a function the analysis cannot follow
